@@ -3,6 +3,7 @@ pub mod bits;
 pub mod bytes;
 pub mod conv;
 pub mod div;
+pub mod forms;
 pub mod modpow;
 pub mod mul;
 #[cfg(feature = "rand")]
@@ -22,6 +23,7 @@ pub fn run(name: &str, r: &mut Rec) -> bool {
         "bytes" => bytes::run(r),
         "conv" => conv::run(r),
         "div" => div::run(r),
+        "forms" => forms::run(r),
         "mul" => mul::run(r),
         #[cfg(feature = "rand")]
         "rand" => rand_drv::run(r),
